@@ -511,6 +511,9 @@ pub(crate) struct DrawState {
     pub(crate) move_cursor: bool,
     /// Controls how the multi progress is aligned if some of its progress bars get removed, default is `Top`
     pub(crate) alignment: MultiProgressAlignment,
+    /// True if the last frame was cut off at the terminal height, which leaves the cursor
+    /// behind the last bar row painted instead of parked at the right edge.
+    cursor_unparked: bool,
 }
 
 impl DrawState {
@@ -591,6 +594,10 @@ impl DrawState {
             // the first line will automatically wrap due to the filler below
             if idx != 0 {
                 term.write_line("")?;
+            } else if nothing_cleared && self.cursor_unparked {
+                // The rows of the cut-off frame the cursor was left in are kept (zombie lines),
+                // so this frame starts on the row below them.
+                term.write_line("")?;
             }
 
             term.write_str(line.as_ref())?;
@@ -611,9 +618,13 @@ impl DrawState {
         // cut off at the terminal height, the next draw starts by clearing the last bar's row,
         // so this is only needed when no bar line was painted at all.
         if let Some((written, last_line_filler)) = last_written {
-            if written == self.lines.len() || real_height + shift == VisualLines::default() {
+            let park = written == self.lines.len() || real_height + shift == VisualLines::default();
+            if park {
                 term.write_str(&" ".repeat(last_line_filler))?;
             }
+            self.cursor_unparked = !park;
+        } else if !nothing_cleared {
+            self.cursor_unparked = false;
         }
 
         term.flush()?;
